@@ -21,6 +21,7 @@
 #include "scpi/scpi.h"
 #include "scpi/verif.h"
 #include "utils_private.h"
+#include "scpi/expression.h"
 #if defined(__has_feature)
 #if __has_feature(address_sanitizer)
 #include <sanitizer/asan_interface.h>
@@ -160,6 +161,13 @@ static scpi_result_t handler(scpi_t * c) {
             else if (!strcmp(o->kind, "dbl")) { double v = 0; ok = SCPI_ParamDouble(c, &v, o->mand); logf_("\"v\":"); if (ok && v == (double) (long long) v && v > -1e15 && v < 1e15) put_dec((long long) v); else logf_("[]"); }
             else if (!strcmp(o->kind, "bool")) { scpi_bool_t v = 0; ok = SCPI_ParamBool(c, &v, o->mand); logf_("\"v\":"); if (ok) put_dec(v ? 1 : 0); else logf_("[]"); }
             else if (!strcmp(o->kind, "choice")) { int32_t v = 0; ok = SCPI_ParamChoice(c, choices, &v, o->mand); logf_("\"v\":"); if (ok) put_dec(v); else logf_("[]"); }
+            else if (!strcmp(o->kind, "num")) {
+                scpi_number_t num;
+                memset(&num, 0, sizeof num);
+                ok = SCPI_ParamNumber(c, scpi_special_numbers_def, &num, o->mand);
+                logf_("\"v\":[]");
+                if (ok) { char t[64]; SCPI_NumberToStr(c, scpi_special_numbers_def, &num, t, sizeof t); }
+            }
             else if (!strcmp(o->kind, "chars")) { const char * v = NULL; size_t l = 0; ok = SCPI_ParamCharacters(c, &v, &l, o->mand); logf_("\"v\":"); if (ok) log_bytes(v, l); else logf_("[]"); }
             else if (!strcmp(o->kind, "block")) { const char * v = NULL; size_t l = 0; ok = SCPI_ParamArbitraryBlock(c, &v, &l, o->mand); logf_("\"v\":"); if (ok) log_bytes(v, l); else logf_("[]"); }
             else if (!strcmp(o->kind, "text")) {
@@ -171,6 +179,35 @@ static scpi_result_t handler(scpi_t * c) {
             } else logf_("\"v\":[]");
             logf_(",\"ok\":%d}", ok ? 1 : 0);
             if (!ok && s->stop && (o->mand || nerr > nerr0)) stopped = 1;
+        } else if (o->k == 'x') {
+            scpi_parameter_t p;
+            scpi_bool_t got = SCPI_Parameter(c, &p, FALSE);
+            logf_("%s{\"k\":\"x\",\"v\":[],\"ok\":%d}", k++ ? "," : "", got ? 1 : 0);
+            if (got) {
+                int32_t i32 = 0; uint32_t u32 = 0; int64_t i64 = 0; uint64_t u64 = 0; float f = 0; double d = 0; int32_t ch = 0;
+                int ei;
+                scpi_bool_t isr; int32_t a = 0, b = 0; double da = 0, db = 0;
+                int32_t vf[3], vt[3]; size_t dims = 0;
+                (void) SCPI_ParamIsValid(&p);
+                (void) SCPI_ParamIsNumber(&p, TRUE);
+                if (SCPI_ParamToInt32(c, &p, &i32)) SCPI_ResultInt32(c, i32);
+                if (SCPI_ParamToUInt32(c, &p, &u32)) SCPI_ResultUInt32Base(c, u32, 16);
+                if (SCPI_ParamToInt64(c, &p, &i64)) SCPI_ResultInt64(c, i64);
+                if (SCPI_ParamToUInt64(c, &p, &u64)) SCPI_ResultUInt64Base(c, u64, 2);
+                if (SCPI_ParamToFloat(c, &p, &f)) SCPI_ResultFloat(c, f);
+                if (SCPI_ParamToDouble(c, &p, &d)) SCPI_ResultDouble(c, d);
+                if (p.type == SCPI_TOKEN_PROGRAM_MNEMONIC && SCPI_ParamToChoice(c, &p, choices, &ch)) { const char * nm; if (SCPI_ChoiceToName(choices, ch, &nm)) SCPI_ResultMnemonic(c, nm); }
+                if (p.type == SCPI_TOKEN_PROGRAM_EXPRESSION) {
+                    for (ei = 0; ei < 4; ei++) {
+                        if (SCPI_ExprNumericListEntryInt(c, &p, ei, &isr, &a, &b) == SCPI_EXPR_OK) SCPI_ResultInt32(c, a);
+                        if (SCPI_ExprNumericListEntryDouble(c, &p, ei, &isr, &da, &db) == SCPI_EXPR_OK) SCPI_ResultDouble(c, da);
+                        if (SCPI_ExprChannelListEntry(c, &p, ei, &isr, vf, vt, 3, &dims) == SCPI_EXPR_OK) SCPI_ResultInt32(c, (int32_t) dims);
+                    }
+                }
+                if (p.type == SCPI_TOKEN_ARBITRARY_BLOCK_PROGRAM_DATA || p.type == SCPI_TOKEN_DOUBLE_QUOTE_PROGRAM_DATA || p.type == SCPI_TOKEN_SINGLE_QUOTE_PROGRAM_DATA)
+                    SCPI_ResultArbitraryBlock(c, p.ptr, (size_t) p.len);
+                if (p.type == SCPI_TOKEN_PROGRAM_MNEMONIC) SCPI_ResultBool(c, p.len > 2);
+            }
         } else if (o->k == 'r') {
             if (!strcmp(o->kind, "i32")) SCPI_ResultInt32(c, (int32_t) o->ival);
             else if (!strcmp(o->kind, "bool")) SCPI_ResultBool(c, o->ival != 0);
@@ -297,6 +334,7 @@ int main(int argc, char ** argv) {
                     else if (!strcmp(tok, "bh")) { o->k = 'h'; o->ival = atol(a); }
                     else if (!strcmp(tok, "bd")) { o->k = 'd'; o->blen = unhex(a ? a : "", &o->bytes); }
                     else if (!strcmp(tok, "e")) { o->k = 'e'; o->ival = atol(a); }
+                    else if (!strcmp(tok, "x")) { o->k = 'x'; }
                 }
             }
         } else if (line[0] == 'I' || line[0] == 'F' || line[0] == 'P') {
